@@ -1415,7 +1415,7 @@ def compile_pattern(compiler, pattern):
     elif isinstance(value, Keyword):
         return asty.MatchClass(
             value,
-            cls=compiler.compile(dotted("hy.models.Keyword")).expr,
+            cls=compiler.compile(dotted("hy.models.Keyword").replace(value)).expr,
             patterns=[
                 asty.MatchValue(value, value=asty.Constant(value, value=value.name))
             ],
